@@ -32,6 +32,8 @@ func runC18(c *Ctx) {
 	}
 	defer k.Stop()
 	c18witnesses(c, k)
+	c18subrace(c, k)
+	c18full(c, k)
 	c18remote(c)
 	n := c.N(100, 4000)
 	evSeq := 0
@@ -651,5 +653,206 @@ func c18remote(c *Ctx) {
 		}
 		p.a.Kill(prod)
 		time.Sleep(5 * time.Millisecond)
+	}
+}
+
+
+// c18subrace: K3 on a subscription racing with a publication. The subscriber parks at the yield point right before
+// its relation is inserted ("link:add" / "monitor:add" in RouteLinkEvent / RouteMonitorEvent); the producer publishes
+// meanwhile; then the subscriber goes on. Whatever the subscriber was handed (the buffer returned by the call) plus
+// what it received live must cover the publications without a hole.
+func c18subrace(c *Ctx, k *K4) {
+	r := c.R
+	rounds := c.N(6, 60)
+	for it := 0; it < rounds; it++ {
+		for _, monitor := range []bool{false, true} {
+			prod, ppid, _ := k.Spawn("P", true, gen.ProcessOptions{}, "")
+			sub, spid, _ := k.Spawn("S", true, gen.ProcessOptions{}, "")
+			_ = prod
+			name := k.NextName("c18race")
+			ev := gen.Event{Name: name, Node: k.Name()}
+			var tok gen.Ref
+			k.Exec(ppid, func(p *Puppet) { tok, _ = p.RegisterEvent(name, gen.EventOptions{Buffer: 8}) })
+			before := 1 + c.Rng.Intn(3)
+			during := 1 + c.Rng.Intn(2)
+			after := 1 + c.Rng.Intn(2)
+			n := 0
+			publish := func(cnt int) {
+				for i := 0; i < cnt; i++ {
+					n++
+					v := n
+					k.Exec(ppid, func(p *Puppet) { p.SendEvent(name, tok, c18payload{v}) })
+				}
+			}
+			publish(before)
+			ctl := NewCtl("k3-no-process")
+			ctl.AddQueue(ev)
+			ctl.On()
+			var handed []gen.MessageEvent
+			var serr error
+			done := make(chan struct{})
+			k.ExecAsync(spid, func(p *Puppet) {
+				if monitor {
+					handed, serr = p.MonitorEvent(ev)
+				} else {
+					handed, serr = p.LinkEvent(ev)
+				}
+				close(done)
+			})
+			parked := waitUntil(2*time.Second, func() bool { return len(ctl.Parked()) == 1 })
+			if parked {
+				publish(during) // the producer runs to its end while the subscriber is parked before the insert
+			}
+			ctl.ReleaseAll()
+			ctl.Close()
+			select {
+			case <-done:
+			case <-time.After(3 * time.Second):
+				r.Count("subrace.inconclusive")
+				continue
+			}
+			publish(after)
+			k.Quiesce()
+			if !parked || serr != nil {
+				r.Count("subrace.inconclusive")
+			} else {
+				have := map[int]int{}
+				var hv, lv []int
+				for _, m := range handed {
+					if pl, ok := m.Message.(c18payload); ok {
+						have[pl.N]++
+						hv = append(hv, pl.N)
+					}
+				}
+				for _, e := range sub.Log() {
+					if e.Kind == "event" {
+						if me, ok := e.Data.(gen.MessageEvent); ok {
+							if pl, ok := me.Message.(c18payload); ok {
+								have[pl.N]++
+								lv = append(lv, pl.N)
+							}
+						}
+					}
+				}
+				for v := 1; v <= n; v++ {
+					if have[v] == 0 {
+						r.Violation("C18/subscribe-gap", fmt.Sprintf("publication %d of %d was neither in the buffer handed to the new subscriber (%v) nor delivered to it (%v); %d were published before the subscription began, %d while it was between its lookup and the insert of the relation, %d after it returned", v, n, hv, lv, before, during, after),
+							map[string]interface{}{"monitor": monitor, "before": before, "during": during, "after": after, "schedule": "S parks before the insert; P publishes; S continues"})
+						break
+					}
+				}
+				r.Case(fmt.Sprintf("subrace/%v/%d/%d/%d", monitor, before, during, after), true)
+				r.Count("subrace.rounds")
+			}
+			k.Node.Kill(ppid)
+			k.Node.Kill(spid)
+			k.Quiesce()
+			k.resetPuppets()
+		}
+	}
+}
+
+
+// c18full: one subscriber with a bounded mailbox is stuck in a callback while the producer publishes more than its
+// mailbox holds. What happens to that subscriber's copies is its own affair; every other subscriber must still
+// see every publication once, in order, and the producer's SendEvent calls succeed.
+func c18full(c *Ctx, k *K4) {
+	r := c.R
+	rounds := c.N(4, 40)
+	for it := 0; it < rounds; it++ {
+		_, ppid, _ := k.Spawn("P", true, gen.ProcessOptions{}, "")
+		name := k.NextName("c18full")
+		ev := gen.Event{Name: name, Node: k.Name()}
+		var tok gen.Ref
+		k.Exec(ppid, func(p *Puppet) { tok, _ = p.RegisterEvent(name, gen.EventOptions{}) })
+		nOrd := 2 + c.Rng.Intn(4)
+		size := int64(1 + c.Rng.Intn(3))
+		slowAt := c.Rng.Intn(nOrd + 1) // position of the bounded subscriber in subscription order
+		var ords []*Puppet
+		var opids []gen.PID
+		var slow gen.PID
+		for i := 0; i <= nOrd; i++ {
+			if i == slowAt {
+				_, slow, _ = k.Spawn("F", true, gen.ProcessOptions{MailboxSize: size}, "")
+				k.Exec(slow, func(p *Puppet) { p.LinkEvent(ev) })
+				continue
+			}
+			pp, pid, _ := k.Spawn(fmt.Sprintf("O%d", i), true, gen.ProcessOptions{}, "")
+			mon := c.Rng.Bool()
+			k.Exec(pid, func(p *Puppet) {
+				if mon {
+					p.MonitorEvent(ev)
+				} else {
+					p.LinkEvent(ev)
+				}
+			})
+			ords = append(ords, pp)
+			opids = append(opids, pid)
+		}
+		release, err := k.Block(slow)
+		if err != nil {
+			r.Count("full.inconclusive")
+			continue
+		}
+		m := int(size) + 2 + c.Rng.Intn(4)
+		var errs []string
+		for v := 1; v <= m; v++ {
+			v := v
+			var e error
+			k.Exec(ppid, func(p *Puppet) { e = p.SendEvent(name, tok, c18payload{v}) })
+			if e != nil {
+				errs = append(errs, fmt.Sprintf("#%d: %v", v, e))
+			}
+		}
+		// (the blocked puppet never looks calm: wait for the others to have handled what they were sent)
+		waitUntil(time.Second, func() bool {
+			for _, pp := range ords {
+				n := 0
+				for _, e := range pp.Log() {
+					if e.Kind == "event" {
+						n++
+					}
+				}
+				if n < m {
+					return false
+				}
+			}
+			return true
+		})
+		time.Sleep(2 * time.Millisecond)
+		rp := map[string]interface{}{"ordinary": nOrd, "bounded_mailbox": size, "bounded_position": slowAt, "publications": m}
+		if len(errs) > 0 {
+			r.Violation("C18/publish-fails-on-full-subscriber", fmt.Sprintf("SendEvent with the right token failed while one subscriber's mailbox was full: %v", errs), rp)
+		}
+		for i, pp := range ords {
+			var got []int
+			for _, e := range pp.Log() {
+				if e.Kind == "event" {
+					if me, ok := e.Data.(gen.MessageEvent); ok {
+						if pl, ok := me.Message.(c18payload); ok {
+							got = append(got, pl.N)
+						}
+					}
+				}
+			}
+			want := make([]int, m)
+			for v := range want {
+				want[v] = v + 1
+			}
+			if fmt.Sprint(got) != fmt.Sprint(want) {
+				r.Violation("C18/missed", fmt.Sprintf("ordinary subscriber %d received %v of the publications %v while another subscriber (mailbox size %d) was full", i, got, want, size), rp)
+				break
+			}
+		}
+		r.Case(fmt.Sprintf("full/%d/%d/%d/%d", nOrd, size, slowAt, m), true)
+		r.Count("full.rounds")
+		release()
+		k.Node.Kill(ppid)
+		k.Node.Kill(slow)
+		for _, pid := range opids {
+			k.Node.Kill(pid)
+		}
+		k.Quiesce()
+		k.resetPuppets()
 	}
 }
